@@ -523,16 +523,16 @@ def createCount (st : DomState) (sym : PE) : Except String ((Lit × Lit) × List
     else pure (((s, .sym (.fn name same ext)), agg), [], st)
   | _ => .error "py: IndexError: symmetry.literals[0]"
 
-/-- `[x for x in arguments if x.name != "_"]`: only `Variable` and `Function` have a `name` -/
+/-- `[x for x in arguments if not (x.ast_type == Variable and x.name == "_")]` (before the repair recorded as `fixed:` in
+known_findings.json: `x.name != "_"`, an AttributeError for a number or another term without a name) -/
 def namedArgs : List Term → Except String (List Term)
   | [] => pure []
   | .var n :: rest => do
     let r ← namedArgs rest
     pure (if n != "_" then .var n :: r else r)
-  | .fn n a e :: rest => do
+  | t :: rest => do
     let r ← namedArgs rest
-    pure (if n != "_" then .fn n a e :: r else r)
-  | _ :: _ => .error "py: AttributeError: no attribute: name"
+    pure (t :: r)
 
 /-- `init_complex` (always called with exactly one symmetry) -/
 def initComplex (st : DomState) (inAgg : Bool) (sym : PE) : Except String (Bundle × DomState) := do
